@@ -1,3 +1,28 @@
-From TM Require Import Base Frame.
-Theorem C17_placeholder : fc_value (fc_new 1) = 1.
+(* C17 -- the blocking client does exactly what the async client does.
+   THIN by nature: the synchronous client is defined as delegation, so these theorems only pin the
+   delegation table and the connect defaults; the assurance comes from the three-way differential
+   execution (real sync client, real async client, model) in the check. *)
+From TM Require Import Base Frame Framed Client Sync.
+
+(* with no timeout every synchronous operation is the asynchronous operation of the same name: same
+   state transition (hence same bytes written), same result *)
+Theorem C17_call_refines : forall p m st req, sync_call p m false st req = call p m st req None.
+Proof. intros. unfold sync_call. destruct (call p m st req None) as [r st']. destruct r; reflexivity. Qed.
+Theorem C17_typed_refines : forall p m st req, sync_typed p m false st req = typed p m st req None.
+Proof.
+  intros. unfold sync_typed. destruct (typed p m st req None) as [r st']. destruct r as [| | | |c]; try reflexivity. destruct c; reflexivity.
+Qed.
+Theorem C17_set_slave_refines : forall st s, sync_set_slave st s = set_slave st s.
 Proof. reflexivity. Qed.
+(* a timeout changes the result only of a call that was still pending (C16) *)
+Theorem C17_timeout_only_affects_pending : forall p m st req,
+  snd (sync_call p m true st req) = snd (call p m st req None)
+  /\ (fst (call p m st req None) <> CRWait -> fst (call p m st req None) <> CRAbandoned ->
+      fst (sync_call p m true st req) = fst (call p m st req None)).
+Proof.
+  intros. unfold sync_call. destruct (call p m st req None) as [r st']. split; [reflexivity|].
+  destruct r; cbn; intros; try reflexivity; congruence.
+Qed.
+(* connect without an explicit slave: TCP 255 (Slave::tcp_device), RTU 0 (Slave::broadcast) *)
+Theorem C17_connect_defaults : sync_connect TCP None = sync_connect TCP (Some 255) /\ sync_connect RTU None = sync_connect RTU (Some 0).
+Proof. split; reflexivity. Qed.
